@@ -158,13 +158,58 @@ def parse_playback(out):
     return tests
 
 
+def loop_unwindset(harness, slot, rules, crate_dir=KANI_CRATE, cwd=None, extra=()):
+    """Per-loop unwind bounds derived from the *current* goto binary: compile only,
+    list the loops with `cbmc --show-loops`, and give every loop whose (pretty)
+    function name contains a rule's substring that rule's bound (first match wins)."""
+    import glob
+    cmd = ["cargo", "kani", "--target-dir", slot, "-Z", "stubbing", "-Z", "unstable-options",
+           "--only-codegen", "--exact", "--harness", harness] + [e for e in extra if e.startswith("--features") or e.startswith("-p")]
+    r = subprocess.run(cmd, cwd=cwd or crate_dir, env=ENV, stdout=subprocess.PIPE,
+                       stderr=subprocess.STDOUT, text=True, timeout=900)
+    if r.returncode != 0:
+        return None, "codegen failed: " + r.stdout[-800:]
+    fn = harness.split("::")[-1]
+    pat = os.path.join(slot, "kani", "*", "debug", "build", "*", "*", "out", "*%d%s.out" % (len(fn), fn))
+    files = [f for f in glob.glob(pat) if not f.endswith(".symtab.out")]
+    if not files:
+        pat = os.path.join(slot, "kani", "*", "debug", "deps", "*%d%s.out" % (len(fn), fn))
+        files = [f for f in glob.glob(pat) if not f.endswith(".symtab.out")]
+    if not files:
+        return None, "goto binary not found for " + harness
+    f = max(files, key=os.path.getmtime)
+    r = subprocess.run(["cbmc", "--show-loops", f], stdout=subprocess.PIPE, stderr=subprocess.STDOUT, text=True, timeout=300)
+    lines = r.stdout.splitlines()
+    pairs = []
+    for i, line in enumerate(lines):
+        if line.startswith("Loop ") and line.endswith(":") and i + 1 < len(lines):
+            lid = line[5:-1]
+            m = re.search(r" function (.*)$", lines[i + 1])
+            pairs.append((lid, m.group(1) if m else ""))
+    us = []
+    for lid, fnname in pairs:
+        for sub, n in rules:
+            if sub in fnname:
+                us.append("%s:%d" % (lid, n))
+                break
+    return ",".join(us), "%d loops, %d with explicit bounds" % (len(pairs), len(us))
+
+
 def run_kani(harness, slot, cap_s, mem_gb=12, extra=(), playback=False, logdir=None,
-             crate_dir=KANI_CRATE, cwd=None):
+             crate_dir=KANI_CRATE, cwd=None, unwindset=None):
     cmd = ["cargo", "kani", "--target-dir", slot, "-Z", "stubbing", "-Z", "unstable-options"]
     if playback:
         cmd += ["-Z", "concrete-playback", "--concrete-playback=print"]
     cmd += ["--exact", "--harness", harness]
     cmd += list(extra)
+    if unwindset:
+        us, note = loop_unwindset(harness, slot, unwindset, crate_dir, cwd, extra)
+        if us is None:
+            return {"verdict": None, "checks": 0, "failed": [], "covers": {}, "verif_time": None,
+                    "unwind_fail": False, "unsupported": False, "wall_s": 0, "rc": -1,
+                    "timed_out": False, "raw_tail": note}
+        if us:
+            cmd += ["--cbmc-args", "--unwindset", us]
     t0 = time.time()
     timed_out = False
     p = subprocess.Popen(cmd, cwd=cwd or crate_dir, env=ENV, stdout=subprocess.PIPE,
@@ -237,13 +282,14 @@ def run_many(jobs, nslots, log, logdir, prefix="kt", crate_dir=KANI_CRATE):
             slot = slots.q.get()
             try:
                 r = run_kani(j["harness"], slot, j.get("cap", 600), j.get("mem", 12),
-                             j.get("extra", ()), logdir=logdir, crate_dir=crate_dir, cwd=j.get("cwd"))
+                             j.get("extra", ()), logdir=logdir, crate_dir=crate_dir, cwd=j.get("cwd"),
+                             unwindset=j.get("unwindset"))
                 st, why = classify(r, j.get("must_cover"))
                 if st == "fail":
                     # second run to obtain concrete values for native replay
                     r2 = run_kani(j["harness"], slot, j.get("cap", 600), j.get("mem", 12),
                                   j.get("extra", ()), playback=True, logdir=logdir,
-                                  crate_dir=crate_dir, cwd=j.get("cwd"))
+                                  crate_dir=crate_dir, cwd=j.get("cwd"), unwindset=j.get("unwindset"))
                     r["playback"] = r2.get("playback", [])
                 r["status"], r["why"] = st, why
                 results[i] = r
